@@ -246,8 +246,12 @@ type c30RefCase struct {
 	strict   bool
 	ciph     string
 	mac      string
-	injectAt int  // index of refpeer's outgoing packet before which the filler goes; -1 = none
-	kind     byte // refpeer.MsgIgnore or refpeer.MsgDebug
+	injectAt int // index of refpeer's outgoing packet before which the filler goes; -1 = none
+	// rekeyNames[i] are extra names refpeer lists in the kex_algorithms of its (i+1)-th RE-exchange KEXINIT
+	// (the last entry repeats): the strict-KEX marker and ext-info-* of its role, repeated although PROTOCOL
+	// 1.10 says they only count in the first KEXINIT and MUST be ignored afterwards
+	rekeyNames [][]string
+	kind       byte // refpeer.MsgIgnore or refpeer.MsgDebug
 }
 
 type c30RefOut struct {
@@ -265,12 +269,23 @@ func runRefCase(k c30RefCase) c30RefOut {
 	out.firstNewKeys = -1
 	cfg := refpeer.Config{Strict: k.strict, ExtInfo: true, Kex: []string{"curve25519-sha256"}, HostKeyAlgos: []string{"ssh-ed25519"}, CiphersCS: []string{k.ciph}, MACsCS: []string{k.mac}}
 	var mu sync.Mutex
+	newKeysOut := 0
 	cfg.Ext = &refpeer.Ext{BeforeWrite: func(c *refpeer.Conn, payload []byte) {
 		mu.Lock()
 		idx := out.sent
 		out.sent++
-		if len(payload) > 0 && payload[0] == refpeer.MsgNewKeys && out.firstNewKeys < 0 {
-			out.firstNewKeys = idx
+		if len(payload) > 0 && payload[0] == refpeer.MsgNewKeys {
+			if out.firstNewKeys < 0 {
+				out.firstNewKeys = idx
+			}
+			if len(k.rekeyNames) > 0 { // what the next KEXINIT of this side will list
+				i := newKeysOut
+				if i >= len(k.rekeyNames) {
+					i = len(k.rekeyNames) - 1
+				}
+				c.Cfg.ExtraKexNames = k.rekeyNames[i]
+			}
+			newKeysOut++
 		}
 		inject := idx == k.injectAt
 		if inject {
@@ -355,9 +370,13 @@ func TestC30(t *testing.T) {
 	if ev.Thorough() {
 		kexes = c29Kexes
 	}
-	var drawn [][]byte // per position slot: message numbers for inject-type (quick: drawn, thorough: all)
+	var drawnScheds [][]int // per re-exchange: index into the option list of extra KEXINIT names
+	var drawn [][]byte      // per position slot: message numbers for inject-type (quick: drawn, thorough: all)
 	rapid.Check(t, func(rt *rapid.T) {
-		drawn = nil
+		drawn, drawnScheds = nil, nil
+		for i := 0; i < ev.Scale(4, 24); i++ {
+			drawnScheds = append(drawnScheds, rapid.SliceOfN(rapid.IntRange(0, 4), 2, 4).Draw(rt, fmt.Sprintf("sched%d", i)))
+		}
 		for i := 0; i < 16; i++ {
 			drawn = append(drawn, rapid.SliceOfNDistinct(rapid.SampledFrom(c30InjectTypes), 2, 2, func(b byte) byte { return b }).Draw(rt, fmt.Sprintf("types%d", i)))
 		}
@@ -490,6 +509,28 @@ func TestC30(t *testing.T) {
 			for _, m := range modes {
 				rcases = append(rcases, c30RefCase{name: "B", goClient: goClient, strict: strict, ciph: m[0], mac: m[1], injectAt: -1})
 			}
+			// re-exchange KEXINITs that repeat (or newly add) the first-exchange-only names
+			own, other := "s", "c"
+			if !goClient {
+				own, other = "c", "s"
+			}
+			marker, ext := "kex-strict-"+own+"-v00@openssh.com", "ext-info-"+own
+			opts := [][]string{nil, {marker}, {ext}, {marker, ext}, {"kex-strict-" + other + "-v00@openssh.com"}}
+			var scheds [][][]string
+			for _, o := range opts[1:] {
+				scheds = append(scheds, [][]string{o}) // the same in every re-exchange
+			}
+			for _, d := range drawnScheds {
+				var sc [][]string
+				for _, x := range d {
+					sc = append(sc, opts[x])
+				}
+				scheds = append(scheds, sc)
+			}
+			for i, sc := range scheds {
+				m := modes[(i+map[bool]int{true: 1, false: 0}[strict])%len(modes)]
+				rcases = append(rcases, c30RefCase{name: "B2", goClient: goClient, strict: strict, ciph: m[0], mac: m[1], injectAt: -1, rekeyNames: sc})
+			}
 			// positions from a baseline run of the same script
 			base := runRefCase(c30RefCase{goClient: goClient, strict: strict, ciph: "aes128-ctr", mac: "hmac-sha2-256", injectAt: -1})
 			if !base.completed() || base.firstNewKeys < 0 {
@@ -537,6 +578,9 @@ func TestC30(t *testing.T) {
 			mode = "strict"
 		}
 		desc := fmt.Sprintf("%s, %s refpeer, %s+%s", role, mode, k.ciph, k.mac)
+		if k.rekeyNames != nil {
+			desc += fmt.Sprintf(", refpeer's re-exchange KEXINITs also list %v (strictness is decided by the first exchange only)", k.rekeyNames)
+		}
 		if o.lo.stalled {
 			c.Inconclusive(desc + ": stalled")
 			t.Fatalf("stalled: %s", desc)
@@ -563,6 +607,17 @@ func TestC30(t *testing.T) {
 						t.Fatal("refpeer seq")
 					}
 				}
+			}
+			if k.rekeyNames != nil {
+				initial := "not strict"
+				if k.strict {
+					initial = "strict"
+				}
+				c.Case(true, fmt.Sprintf("B2|%s|%v", desc, k.rekeyNames), "B2:re-exchange-KEXINIT-names", "B2:first-exchange-"+initial, "B2:"+role)
+				if c.WantSample() {
+					c.Sample(map[string]any{"part": "B2 re-exchange KEXINIT repeats first-exchange-only names", "setup": desc, "names_per_re_exchange": fmt.Sprint(k.rekeyNames), "key_exchanges": o.kexes})
+				}
+				continue
 			}
 			c.Case(true, "B|"+desc, "B:"+mode+"-rekeys", "B:"+role, "B:cipher="+k.ciph)
 			if c.WantSample() {
